@@ -38,6 +38,13 @@ type Config struct {
 	// long and histories never merge (every select / map-order decision is part of a history), so
 	// this family is explored with DEVIATION bounding: all schedules that differ from the canonical
 	// run-until-blocked schedule in at most Bound decisions, sharded by the depth of the first one.
+	// After orders the clients: actor -> gates it waits for before it acts. Actors are "sub:NAME"
+	// (the creator of that subscriber), "close:TARGET" (that closer) and "pub" (every publisher);
+	// gates are "sub:NAME" (Subscribe/Clone of NAME has returned), "closed:TARGET" (that closer's
+	// Close() has returned) and "pub" (publisher 0 has finished). Without an entry the client acts
+	// at once, concurrently with everybody else.
+	After map[string][]string
+
 	Backlog int
 	Bound   int
 	Shard   int
@@ -82,7 +89,8 @@ type instance struct {
 	byName  map[string]*subState
 	pubs    [][]*pubRec
 	closers []*closerState
-	subDone uint32 // bit i: creator of subscriber i has returned successfully (shared harness memory; accessed atomically)
+	gates   map[string]chan struct{} // "closed:X" and "pub" gates that somebody waits for
+	subDone uint32                   // bit i: creator of subscriber i has returned successfully (shared harness memory; accessed atomically)
 
 	// free-running mode (supplementary -race pass): real goroutines, tracked by wait groups
 	free    bool
@@ -143,6 +151,14 @@ func newInstance(cfg *Config) *instance {
 	for _, c := range cfg.Closers {
 		in.closers = append(in.closers, &closerState{target: c})
 	}
+	in.gates = map[string]chan struct{}{}
+	for _, gs := range cfg.After {
+		for _, g := range gs {
+			if !strings.HasPrefix(g, "sub:") {
+				in.gates[g] = make(chan struct{})
+			}
+		}
+	}
 	return in
 }
 
@@ -168,8 +184,30 @@ func (in *instance) body() {
 	}
 }
 
+// wait blocks the calling client until every gate of its After entry is open.
+func (in *instance) wait(actor string) {
+	for _, g := range in.cfg.After[actor] {
+		if strings.HasPrefix(g, "sub:") {
+			vs.Recv(in.byName[strings.TrimPrefix(g, "sub:")].ready)
+		} else {
+			vs.Recv(in.gates[g])
+		}
+	}
+}
+
+// open opens a gate if somebody waits for it.
+func (in *instance) open(gate string) {
+	if ch := in.gates[gate]; ch != nil {
+		vs.Close(ch)
+	}
+}
+
 func (in *instance) publisher(p int) {
 	vs.Label(fmt.Sprintf("publisher%d", p))
+	in.wait("pub")
+	if p == 0 {
+		defer in.open("pub")
+	}
 	for _, rec := range in.pubs[p] {
 		// The read of the shared "who has subscribed" mask must be a scheduling point of its own:
 		// "Publish began after Subscribe returned" has to be explorable independently of where the
@@ -192,6 +230,7 @@ func (in *instance) creator(st *subState) {
 			vs.Close(st.ready)
 		}
 	}()
+	in.wait("sub:" + st.spec.Name)
 	if st.spec.Parent == "" {
 		st.attempted = true
 		sub, err := in.bus.Subscribe()
@@ -235,6 +274,13 @@ func (in *instance) awaited(name string) bool {
 			return true
 		}
 	}
+	for _, gs := range in.cfg.After {
+		for _, g := range gs {
+			if g == "sub:"+name {
+				return true
+			}
+		}
+	}
 	return false
 }
 
@@ -272,6 +318,8 @@ func (in *instance) reader(st *subState) {
 
 func (in *instance) closer(c *closerState) {
 	vs.Label("closer-" + c.target)
+	in.wait("close:" + c.target)
+	defer in.open("closed:" + c.target)
 	if c.target == "bus" {
 		c.begun = true
 		in.bus.Close()
